@@ -260,7 +260,11 @@ val fpow : ops -> car -> nat -> car
 
 val fzpow : ops -> car -> z -> car
 
+val two : ops -> car
+
 val fsum : ops -> car list -> car
+
+val fprod : ops -> car list -> car
 
 val qcOps : ops
 
@@ -923,6 +927,88 @@ val decode_gen : z list -> gen
 val qid : car -> car
 
 val run_c18 : z -> q list -> q list
+
+val sqr : ops -> car -> car
+
+val sumsq : ops -> car list -> car
+
+val vsub : ops -> car list -> car list -> car list
+
+val ssub : ops -> car cx list -> car cx list -> car cx list
+
+val zrange0 : z -> z list
+
+val idx_grid : z list -> z list list
+
+val half_indices : nat -> z -> z list list
+
+val vol : ops -> nat -> z -> car -> car
+
+val spatial_agg : ops -> (car -> car) -> nat -> z -> car -> car list -> car
+
+val combine_spatial : ops -> z -> car -> car -> car -> car
+
+val combine_fourier : ops -> z -> car -> car -> car -> car
+
+val norm_gen :
+  ops -> ('a1 -> car) -> ('a1 -> 'a1 -> 'a1) -> (z -> car -> car -> car ->
+  car) -> bool -> z -> 'a1 list -> 'a1 list option -> car option
+
+val is_none : 'a1 option -> bool
+
+val spatial_norm :
+  ops -> (car -> car) -> nat -> z -> car -> z -> car list list -> car list
+  list option -> car option
+
+val axis_scaling : ops -> z -> z -> bool -> z -> car
+
+val scaling_recon : ops -> nat -> z -> z list -> car
+
+val band_mask : nat -> z -> z option -> z option -> z list -> bool
+
+val cpow : ops -> car cx -> nat -> car cx
+
+val dop_axis : ops -> car -> car -> nat -> z -> nat -> z list -> car cx
+
+type spectrum = (z list * car cx) list
+
+val with_idx : ops -> nat -> z -> car cx list -> spectrum
+
+val apply_mask :
+  ops -> nat -> z -> z option -> z option -> spectrum -> spectrum
+
+val apply_deriv :
+  ops -> car -> car -> nat -> z -> nat -> nat -> spectrum -> spectrum
+
+val agg_channel : ops -> (car -> car) -> nat -> z -> car -> spectrum -> car
+
+val fourier_agg :
+  ops -> (car -> car) -> nat -> z -> car -> car -> z option -> z option ->
+  nat option -> car cx list -> car
+
+val fourier_norm :
+  ops -> (car -> car) -> nat -> z -> car -> car -> z option -> z option ->
+  nat option -> z -> car cx list list -> car cx list list option -> car option
+
+val oadd2 : ops -> car option -> car option -> car option
+
+val h1_norm :
+  ops -> (car -> car) -> nat -> z -> car -> car -> z option -> z option -> z
+  -> car cx list list -> car cx list list option -> car option
+
+val dot : ops -> car list -> car list -> car
+
+val corr2_channel : ops -> car list -> car list -> car
+
+val mean_metric : ops -> car list -> car
+
+val idK : ops -> car -> car
+
+val optq : car option -> q list
+
+val optz : q -> q -> z option
+
+val run_c16 : z -> q list -> q list
 
 val set0 : ops -> car list -> car list -> car list
 
